@@ -108,6 +108,29 @@ class Tok:
         return "Tok(%d)" % self.t
 
 
+class StrSub(str):
+    """a str subclass: instances are == to (and hash like) the plain str, but are other objects"""
+    __slots__ = ()
+
+
+def mk_eqv(t, variant=0):
+    """a FRESH object of equality class t: classes t % 3 != 2 are the number 1000+t spelled as int /
+    float / Fraction / Decimal (all ==, same hash, never `is`); classes t % 3 == 2 the text 'w<t>'
+    as a fresh str / an instance of a str subclass; t >= 50 a fresh NaN (equal to nothing)."""
+    from decimal import Decimal
+    from fractions import Fraction
+    if t >= 50:
+        return float("nan")
+    if t % 3 == 2:
+        txt = "".join(["w", str(t)])
+        return StrSub(txt) if variant % 2 else txt
+    v = 1000 + t
+    return [int(str(v)), float(v), Fraction(v), Decimal(v)][variant % 4]
+
+
+_EQV = {"nan": {}, "pos": {}, "log": []}     # per run_impl call: id -> token of a NaN, id -> position in src
+
+
 def kobj(k):
     return KOBJ[k] if k < len(KOBJ) else "k%d" % k
 
@@ -126,6 +149,9 @@ def elem(ek, t, keyf=None):
     if ek == "tok":
         k = keyf(t) if keyf else None
         return Tok(t) if k is _NOATTR else Tok(t, k)
+    if ek == "eqv":
+        assert t < 50, "a NaN class is only ever used inside src"
+        return mk_eqv(t, 0)
     raise ValueError(ek)
 
 
@@ -167,6 +193,18 @@ def untok(ek, o):
         if isinstance(o, Tok):
             return o.t
         raise ValueError("unknown element %r" % (o,))
+    if ek == "eqv":
+        from decimal import Decimal
+        from fractions import Fraction
+        if isinstance(o, float) and o != o:
+            if id(o) in _EQV["nan"]:
+                return _EQV["nan"][id(o)]
+            raise ValueError("a NaN that is not one of the input objects")
+        if isinstance(o, str) and re.fullmatch(r"w\d+", o):
+            return int(o[1:])
+        if isinstance(o, (int, float, Fraction, Decimal)) and not isinstance(o, bool) and o == int(o) and 1000 <= int(o) < 1050:
+            return int(o) - 1000
+        raise ValueError("unknown element %r" % (o,))
     raise ValueError(ek)
 
 
@@ -183,6 +221,12 @@ def unkey(o):
 
 
 def truthy(ek, toks):
+    if ek == "eqv":
+        return sorted(set(toks))                    # 1000+t, 'w<t>' and NaN are all truthy
+    return _truthy(ek, toks)
+
+
+def _truthy(ek, toks):
     return sorted(set(t for t in toks if bool(elem(ek, t))))
 
 
@@ -229,6 +273,10 @@ def mk_src(mk, objs):
         return "".join(objs)
     if mk == "bytes":
         return bytes(objs)
+    if mk == "bytearray":
+        return bytearray(objs)
+    if mk == "range":                       # consecutive byte-kind items: the same ints as a range object
+        return range(objs[0], objs[0] + len(objs)) if objs else range(0)
     raise ValueError(mk)
 
 
@@ -249,6 +297,8 @@ def _flat(ek, seq):
     """an output group (list / tuple / str / bytes) -> list of tokens"""
     if not isinstance(seq, (list, tuple, str, bytes)):
         raise ValueError("unexpected group %r" % (seq,))
+    if ek == "eqv":
+        _EQV["log"].append([[untok(ek, o), _EQV["pos"].get(id(o), -1)] for o in seq])
     return [untok(ek, o) for o in seq]
 
 
@@ -274,17 +324,49 @@ def _groups_ty(ek, out):
 
 
 def run_impl(case):
+    obs = _run_impl(case)
+    if case.get("ek") == "eqv" and case["fn"] in _IDS_GROUPS:
+        k = _IDS_GROUPS[case["fn"]](case, obs)
+        if k is not None:
+            obs["ids"] = _EQV["log"][:k]       # the list form is always converted first
+    return obs
+
+
+def _ok_len(r):
+    return len(r[1]) if r[0] == "ok" else None
+
+
+_IDS_GROUPS = {
+    "chunked": lambda c, o: _ok_len(o["list"]),
+    "windowed": lambda c, o: len(o["list"]), "pairwise": lambda c, o: len(o["list"]),
+    "split": lambda c, o: len(o["list"]),
+    "strip": lambda c, o: 1, "unique": lambda c, o: 1,
+    "redundant": lambda c, o: 1 + len(o["groups"]),
+    "bucketize": lambda c, o: len(o["items"]) if c["vt"] is None else None,
+    "partition": lambda c, o: 2,
+}
+
+
+def _run_impl(case):
     from boltons import iterutils as I
     fn, ek = case["fn"], case.get("ek", "obj")
     mk = case.get("mk", "list")
     keyf = None
+    if ek == "eqv":
+        objs = [mk_eqv(t, i + t) for i, t in enumerate(case.get("src", []))]
+        _EQV["nan"] = {id(o): t for o, t in zip(objs, case["src"]) if t >= 50}
+        _EQV["pos"] = {id(o): i for i, o in enumerate(objs)}
+        _EQV["log"] = []
+        _EQV["keep"] = objs                      # keep the objects alive: ids must stay unique
+        assert len(_EQV["pos"]) == len(objs)
     if ek == "tok":
         ktf = key_token_fn(case["key"])
 
         def keyf(t):
             k = ktf(t)
             return _NOATTR if k >= 1000 else kobj(k)
-    objs = [elem(ek, t, keyf) for t in case.get("src", [])]
+    if ek != "eqv":
+        objs = [elem(ek, t, keyf) for t in case.get("src", [])]
 
     def src():
         return mk_src(mk, objs)
@@ -516,6 +598,13 @@ _WHICH = {"l": "StripL", "r": "StripR", "b": "StripB"}
 
 
 def to_coq(case, obs):
+    t = _to_coq(case, obs)
+    if "ids" in obs:
+        t = "CIds (%s) %s" % (t, clist(clist(cpair(cnat(c), cZ(p)) for c, p in g) for g in obs["ids"]))
+    return t
+
+
+def _to_coq(case, obs):
     fn = case["fn"]
     src = _l(case.get("src", []))
     if fn == "chunked":
@@ -579,9 +668,12 @@ def _pick_container(rng, fn, need_hash=False, sized=False, allow_text=True):
     if allow_text and r < 0.12:
         return "chr", rng.choice(["str", "str", "list", "gen"] if not sized else ["str", "list"]), 1
     if allow_text and r < 0.2:
-        return "byte", rng.choice(["bytes", "bytes", "list", "iter"] if not sized else ["bytes", "list"]), 1
+        return "byte", rng.choice(["bytes", "bytes", "list", "iter", "bytearray", "range"] if not sized
+                                  else ["bytes", "list", "bytearray", "range"]), 1
     if not need_hash and r < 0.3:
         return "unh", rng.choice(mks), 0
+    if r < 0.45 and fn in _IDS_GROUPS:
+        return "eqv", rng.choice(mks), 0     # == but not `is` objects, identity of the emitted items observed
     return "obj", rng.choice(mks), 0
 
 
@@ -611,6 +703,26 @@ def _rand_key(rng):
 
 
 def _one(rng, tier, fn, src=None):
+    c = _one_raw(rng, tier, fn, src)
+    s = c.get("src")
+    if c.get("mk") == "range" and s is not None:
+        if src is not None and s != list(range(s[0], s[0] + len(s))) if s else False:
+            c["mk"] = "tuple"                       # a forced (swept) list is rarely consecutive
+        elif s:
+            c["src"] = list(range(s[0], s[0] + len(s)))
+            if "keys" in c and len(c["keys"]) != len(c["src"]):
+                pass
+    if c.get("ek") == "eqv":
+        if fn == "split" and c["sep"][0] == "none":
+            c["ek"] = "obj"                         # there is no None among the == classes
+        elif src is None and s and rng.random() < 0.3:
+            for _ in range(rng.choice([1, 1, 2])):  # NaN objects: equal to nothing, not even to themselves
+                i = rng.randrange(len(s))
+                s[i] = 50 + i
+    return c
+
+
+def _one_raw(rng, tier, fn, src=None):
     """a random case of kind fn; src forces the token list (exhaustive sweep)."""
     forced = src is not None
 
